@@ -265,6 +265,9 @@ func init() {
 			checkComparator(c, "R1.1")
 			checkOpsConcatenation(c)
 			checkWitnessAll(c, "R5.3")
+			// … and a witnessed time is never lost: the next commit of the process is dated above what it read (shared with C05)
+			checkClockRebuild(c)
+			checkReadIgnoresOwnClocks(c, "R3.7")
 			// what Commit stores keeps the staging order: packs are cut where the author changes, never regrouped (shared with C04)
 			checkAuthorSplit(c)
 			// the histories git-bug writes itself pass these refusals: the merge commit is dated after both branches were witnessed (shared with C01/C05)
@@ -284,6 +287,9 @@ func init() {
 			checkWitnessAll(c, "R1.4")
 			// every replica accepts exactly the commits the others accept: the signature check and its inputs (shared with C08)
 			checkPackVerification(c)
+			// … and every replica writes what the others accept: a merge commit is signed like any other commit (shared with C08)
+			c.Doc("R8.5", "Write stores a signed commit iff Author.SigningKey is non-nil, with that key, whatever the pack holds")
+			checkSigningWrite(c)
 			// … and refuses exactly the histories the others refuse (shared with C03)
 			checkReadGuards(c)
 			// what a replica shows and builds its next edit on is what merge hands back and what the
@@ -294,6 +300,9 @@ func init() {
 			checkNewOnlyWhenRefAbsent(c)
 			// what was fetched gets merged: a pull never reports success while the fetched data stays unmerged (shared with C06)
 			checkActionsAtomic(c, newEffects(c.W))
+			// a replica that must rebuild its clocks can still open a history with merges; the exchange goes to the remote that was named
+			checkClockWalkToRoot(c, "R1.6")
+			checkRemoteArgumentHonoured(c, "R1.7")
 			c.Doc("R11.1", "per SubCache function: excerpts store ⇒ index write; delete ⇒ Index.Remove; reset ⇒ Index.Clear; and SubCache.write() on every path to a non-error exit")
 			checkExcerptIndexPairing(c)
 		})
